@@ -9,7 +9,7 @@
       dialect).  It is parametrised by the integer operators; `pure_run` runs it with the CHECKED operators, which
       refuse as soon as Go's 64-bit operator and CPython's unbounded one differ on the operands at hand.  It also
       refuses every type-dependent trigger of a known difference: += on a list variable (rebinding in asp, in place in
-      CPython), l + [] (shares the array), == between int and bool (DeepEqual) and == of lists, ordering of bools,
+      CPython), == between int and bool (DeepEqual) and == of lists, ordering of bools,
       `in` on anything but strings, * on strings and lists, % formatting.
       `pure_run fuel p = Ok g` is the formal reading of "p is in the pure subset, and integer arithmetic is safe
       along the run".  Proof/C16_Pure.v proves that then BOTH dialects of Model/C16_Eval.v compute exactly g. *)
@@ -133,7 +133,7 @@ Definition papply_bin (fuel : nat) (o : binop) (a b : pval) : res pval :=
               end
           | PList x, PList y =>
               match o with
-              | Add => match y with [] => Err EUnsupported | _ => Ok (PList (x ++ y)) end
+              | Add => Ok (PList (x ++ y))
               | _ => Err EUnsupported
               end
           | _, _ => Err EUnsupported
